@@ -66,6 +66,8 @@ def gen_cases(tier, seed):
         r = random.Random(env.seed_for(s, "descriptor"))
         out.append({"seed": s, "mode": "builtin_fail", "members": 1, "W": r.choice([1, 2, 4]), "n": r.randint(2, 8), "sched": "default", "retry": r.choice([None, 1, 2, 3]),
                     "max_errors": r.choice([0, None])})
+    for i in range(max(20, n // 60)):
+        out.append({"seed": env.seed_for(seed, ID, tier, "dup_progress", i), "mode": "dup_progress", "members": 2, "W": 1 + i % 3, "n": 4, "sched": "default"})
     for i in range(n // 25):
         s = env.seed_for(seed, ID, tier, "interrupt", i)
         r = random.Random(env.seed_for(s, "descriptor"))
@@ -259,6 +261,49 @@ def run_interrupt(desc):
     return res
 
 
+def run_dup_progress(desc):
+    """The same Progress object listed more than once in run's `progress` (a Progress is a factory: every listing asks it for an observer of
+    its own): as many observers are created as there are listings, and each receives the complete account."""
+    import uberjob
+    from uberjob.progress import Progress
+
+    rng = random.Random(desc["seed"])
+    made = []
+
+    def factory():
+        made.append(recobserver.RecObserver(f"rec{len(made)}"))
+        return made[-1]
+
+    p_ = Progress(factory)
+    other = recobserver.RecObserver("other")
+    listing = rng.choice([[p_, p_], (p_, p_), [p_, other.progress(), p_], [p_, p_, p_]])
+    plan = uberjob.Plan()
+    xs = [plan.call(lambda i=i: i) for i in range(rng.randint(1, 6))]
+    out = plan.call(lambda *a: sum(a), *xs)
+    exc = None
+    try:
+        uberjob.run(plan, output=out, progress=listing, max_workers=desc["W"])
+    except BaseException as e:
+        exc = e
+    want = sum(1 for x in listing if x is p_)
+    bad = None
+    if exc is not None:
+        bad = f"run raised {exc!r}"
+    elif len(made) != want:
+        bad = f"the same Progress object is listed {want} times in progress={type(listing).__name__}, but {len(made)} observer(s) were created from it"
+    else:
+        for r_ in made + ([other] if any(x is not p_ for x in listing) else []):
+            bad = recobserver.check_trace(r_.trace, balanced=True, succeeded=True)
+            if bad:
+                break
+        if bad is None and any(m.signature() != made[0].signature() for m in made):
+            bad = "observers created from the same Progress received different notification sequences"
+    res = {"status": "ok", "counters": {"dup_progress_runs": 1, "traces_checked": len(made)}, "nontrivial": True, "sig": f"dup|{desc['seed'] % 100000}"}
+    if bad:
+        res.update(status="violation", mechanism="observer-trace", detail=f"[one Progress listed several times] {bad}")
+    return res
+
+
 def run_many_callables(desc):
     """One process, several rounds, thousands of short-lived call functions per round (more than any internal cache holds), each round's
     functions freed before the next: the scopes reported for a run must carry the names of the functions of THAT run."""
@@ -377,6 +422,8 @@ def run_case(desc):
         return run_builtin_fail(desc)
     if desc["mode"] == "interrupt":
         return run_interrupt(desc)
+    if desc["mode"] == "dup_progress":
+        return run_dup_progress(desc)
     recs, progress = make_progress(desc)
     extra_calls = []
     if desc["mode"] == "plain":
